@@ -298,6 +298,29 @@ def phi_lowering(ctx, rid):
         vm = [n for n in ast.walk(p1) if isinstance(n, ast.Assign) and isinstance(n.targets[0], ast.Subscript) and norm(n.targets[0].value) == "val_map"]
         rd = [n for n in ast.walk(p2) if isinstance(n, ast.Subscript) and isinstance(n.ctx, ast.Load) and norm(n.value) == "val_map"]
         ctx.ob(rid, site, "phase 2 reads the temporary recorded by phase 1 under the same key", len(vm) == 1 and len(rd) == 1 and norm(vm[0].targets[0].slice) == norm(rd[0].slice), construct="same-key")
+    # the phi register is a transfer register only: uses of the phi VALUE read a copy taken on block entry
+    dp = ctx.fn(D, "SelectionGraphBuilder.do_phi")
+    site = D + ":SelectionGraphBuilder.do_phi"
+    env = sym.single_assign_env(dp)
+    am = [c for c in calls_in(dp, "add_map")]
+    pmv = [norm(n.targets[0]) for n in ast.walk(dp) if isinstance(n, ast.Assign) and "phi_map[" in norm(n.value) and isinstance(n.targets[0], ast.Name)]
+    fresh = [norm(n.targets[0]) for n in ast.walk(dp) if isinstance(n, ast.Assign) and isinstance(n.value, ast.Call) and last_name(n.value) == "new_vreg" and isinstance(n.targets[0], ast.Name)]
+    vset = {}   # output variable -> list of vreg expressions assigned to <var>.vreg
+    for n in ast.walk(dp):
+        if isinstance(n, ast.Assign) and isinstance(n.targets[0], ast.Attribute) and n.targets[0].attr == "vreg" and isinstance(n.targets[0].value, ast.Name):
+            vset.setdefault(n.targets[0].value.id, []).append(norm(n.value))
+    mapped = norm(am[0].args[1]) if len(am) == 1 and len(am[0].args) == 2 else None
+    ok = mapped is not None and len(pmv) == 1 and bool(vset.get(mapped)) and all(v in fresh for v in vset[mapped])
+    ctx.ob(rid, site, "the value mapped for a phi lives in a fresh virtual register, not in the phi register itself (the phi copies at the end of a predecessor - which may be this very block or a block this one dominates - overwrite the phi register before the block's terminator operands and values used only in later blocks are evaluated)", ok, construct="phi-value-is-entry-copy",
+           detail="add_map(..., %s); %s.vreg = %s; phi register %s; fresh %s" % (mapped, mapped, vset.get(mapped), pmv, fresh))
+    mv = [c for c in ast.walk(dp) if isinstance(c, ast.Call) and last_name(c) == "new_node" and c.args and try_const_(c.args[0]) == "MOV"]
+    ok = False
+    if len(mv) == 1 and len(mv[0].args) >= 3 and len(pmv) == 1:
+        src = norm(mv[0].args[2])
+        dstv = [norm(k.value) for k in mv[0].keywords if k.arg == "value"]
+        ok = vset.get(src) == [pmv[0]] and len(dstv) == 1 and dstv[0] in fresh and bool(mapped) and vset.get(mapped) == [dstv[0]] and any(True for c in calls_in(dp, "chain"))
+        ok = ok and not any(isinstance(x, (ast.If, ast.IfExp, ast.Return)) for x in ast.walk(dp))
+    ctx.ob(rid, site, "the entry copy is a chained MOV from the phi register into that fresh register, unconditionally", ok, construct="entry-copy-chained", detail="%d MOV node(s)" % len(mv))
     gf = ctx.fn(G, "CodeGenerator.generate_function")
     sp = [c for c in calls_in(gf, "_split_phi_edges")]
     sel = [c for c in calls_in(gf, "select_and_schedule")]
